@@ -598,10 +598,17 @@ package semver
 //@   trigger idseq(s, a, e, numeric), idseq(s, a, n, numeric)
 //@   props C18
 
+//@ lemma alldig_unshift(s string, c int, p int, q int)
+//@   requires 0 <= c && c <= p && p <= q && q <= len(s)
+//@   ensures alldig(s[c:], p - c, q - c) == alldig(s, p, q)
+//@   trigger alldig(s, p, q), s[c:]
+//@   props C18
+
 //@ lemma idseq_shift(s string, c int, a int, e int, numeric bool)
 //@   requires 0 <= c && 0 <= a && a <= e && c + e <= len(s)
-//@   ensures idseq(s[c:], a, e, numeric) == idseq(s, c + a, c + e, numeric)
-//@   uses alldig_sub
+//@   ensures idseq(s[c:], a, e, numeric) ==> idseq(s, c + a, c + e, numeric)
+//@   ensures idseq(s, c + a, c + e, numeric) ==> idseq(s[c:], a, e, numeric)
+//@   uses alldig_sub alldig_unshift
 //@   trigger idseq(s[c:], a, e, numeric)
 //@   props C18
 
@@ -661,24 +668,173 @@ package semver
 //@   trigger idseq(s[:e], a, e, numeric)
 //@   props C18
 
+//@ lemma cut_vpos(v string, n int)
+//@   requires VPOS(v) && 0 <= PC(v) && PC(v) < len(v) && v[PC(v)] == '-' && PC(v) + 1 < n && n < firstplus(v, PC(v) + 1) && v[n] == '.'
+//@   ensures PC(v[:n]) == PC(v) && PB(v[:n]) == PB(v) && PA(v[:n]) == PA(v)
+//@   ensures firstplus(v[:n], PC(v) + 1) == n
+//@   ensures idseq(v[:n], PC(v) + 1, n, true)
+//@   ensures TAILPOS(v[:n], PC(v))
+//@   ensures VPOS(v[:n])
+//@   uses pos_prefix firstplus_prefix idseq_prefix2 idseq_cut firstplus_bounds digend_bounds
+//@   hint TAILPOS(v, PC(v))
+//@   hint PA(v[:n])
+//@   hint PB(v)
+//@   hint PA(v)
+//@   hint idseq(v, PC(v) + 1, n, true)
+//@   trigger VPOS(v), VPOS(v[:n])
+//@   props C18
+
 //@ lemma valid_cut(v string, n int)
 //@   requires VALID(v) && 0 <= PC(v) && PC(v) < len(v) && v[PC(v)] == '-' && PC(v) + 1 < n && n < firstplus(v, PC(v) + 1) && v[n] == '.'
 //@   ensures VALID(v[:n])
-//@   ensures PC(v[:n]) == PC(v) && PB(v[:n]) == PB(v) && PA(v[:n]) == PA(v)
-//@   ensures NOPLUS(v[:n], 0, n) && HASPRE(v[:n]) && firstplus(v[:n], PC(v) + 1) == n
-//@   ensures PRE(v[:n]) == v[PC(v):n]
-//@   ensures BLD(v[:n]) == ""
-//@   uses valid_pos_a valid_pos_b pos_prefix firstplus_prefix idseq_prefix2 idseq_cut firstplus_bounds digend_bounds bld_tail_pre
+//@   ensures PC(v[:n]) == PC(v) && PB(v[:n]) == PB(v) && PA(v[:n]) == PA(v) && firstplus(v[:n], PC(v) + 1) == n
+//@   uses valid_pos_a valid_pos_b cut_vpos
 //@   hint VPOS(v)
 //@   hint VPOS(v[:n])
-//@   hint TAILPOS(v, PC(v))
-//@   hint TAILPOS(v[:n], PC(v))
-//@   hint PA(v[:n])
-//@   hint PB(v)
-//@   hint firstplus(v[:n], PC(v) + 1)
-//@   hint idseq(v, PC(v) + 1, n, true)
-//@   hint idseq(v[:n], PC(v) + 1, n, true)
-//@   hint PC(v[:n])
-//@   hint R3(v[:n])
 //@   trigger VALID(v), VALID(v[:n])
+//@   props C18
+
+//@ lemma valid_cut_pre(v string, n int)
+//@   requires VALID(v) && 0 <= PC(v) && PC(v) < len(v) && v[PC(v)] == '-' && PC(v) + 1 < n && n < firstplus(v, PC(v) + 1) && v[n] == '.'
+//@   ensures NOPLUS(v, 0, n)
+//@   ensures NOPLUS(v[:n], 0, n)
+//@   ensures R3(v[:n]) == v[PC(v):n] && FULL(v[:n])
+//@   ensures HASPRE(v[:n])
+//@   ensures PRE(v[:n]) == v[PC(v):n]
+//@   ensures BLD(v[:n]) == ""
+//@   uses valid_cut firstplus_bounds bld_tail_pre noplus_numbers pos_major pos_minor pos_patch
+//@   hint VALID(v[:n])
+//@   hint NOPLUS(v, 0, PC(v))
+//@   hint PC(v[:n])
+//@   hint PB(v[:n])
+//@   hint PA(v[:n])
+//@   trigger VALID(v), VALID(v[:n])
+//@   props C18
+
+//@ # ---------- the canonical form is itself a full valid version ----------
+//@ # digit runs of a concatenation
+//@ lemma digend_cat(x string, y string, a int)
+//@   requires 0 <= a && a <= len(x)
+//@   ensures digend(x + y, a) == (if digend(x, a) < len(x) then digend(x, a) else len(x) + digend(y, 0))
+//@   induction len(x) - a
+//@   uses digend_bounds digend_shift cat_prefix
+//@   hint digend((x + y)[len(x):], 0)
+//@   trigger digend(x + y, a)
+//@   props C18
+
+//@ # cutting a full valid version at its first '+' (dropping the build metadata)
+//@ lemma nobuild_vpos(v string)
+//@   requires VPOS(v) && PA(v) < len(v) && PB(v) < len(v) && NOPLUS(v, 0, PC(v)) && PC(v) <= len(v)
+//@   ensures PC(v) <= firstplus(v, 0) && firstplus(v, 0) <= len(v)
+//@   ensures PA(v[:firstplus(v, 0)]) == PA(v) && PB(v[:firstplus(v, 0)]) == PB(v) && PC(v[:firstplus(v, 0)]) == PC(v)
+//@   ensures PC(v) < len(v) && v[PC(v)] == '-' ==> firstplus(v, 0) == firstplus(v, PC(v) + 1) && firstplus(v[:firstplus(v, 0)], PC(v) + 1) == firstplus(v, 0)
+//@   ensures !(PC(v) < len(v) && v[PC(v)] == '-') ==> firstplus(v, 0) == PC(v)
+//@   ensures TAILPOS(v[:firstplus(v, 0)], PC(v))
+//@   ensures VPOS(v[:firstplus(v, 0)])
+//@   uses pos_prefix firstplus_prefix idseq_prefix2 firstplus_bounds digend_bounds firstplus_past firstplus_here
+//@   hint TAILPOS(v, PC(v))
+//@   hint PA(v[:firstplus(v, 0)])
+//@   hint PA(v)
+//@   hint PB(v)
+//@   hint firstplus(v, PC(v) + 1)
+//@   trigger VPOS(v), VPOS(v[:firstplus(v, 0)])
+//@   props C18
+
+//@ lemma valid_nobuild(v string)
+//@   requires VALID(v) && FULL(v)
+//@   ensures VALID(v[:firstplus(v, 0)])
+//@   ensures PA(v[:firstplus(v, 0)]) == PA(v) && PB(v[:firstplus(v, 0)]) == PB(v) && PC(v[:firstplus(v, 0)]) == PC(v)
+//@   ensures PC(v) <= firstplus(v, 0) && firstplus(v, 0) <= len(v) && PA(v) < len(v) && PB(v) < len(v)
+//@   uses valid_pos_a valid_pos_b nobuild_vpos noplus_numbers pos_major pos_minor pos_patch
+//@   hint VPOS(v)
+//@   hint VPOS(v[:firstplus(v, 0)])
+//@   hint NOPLUS(v, 0, PC(v))
+//@   trigger VALID(v), VALID(v[:firstplus(v, 0)])
+//@   props C18
+
+//@ lemma digend_cat2(x string, y string, k int)
+//@   requires 0 <= k && k <= len(y)
+//@   ensures digend(x + y, len(x) + k) == len(x) + digend(y, k)
+//@   uses digend_shift cat_prefix
+//@   hint digend((x + y)[len(x):], k)
+//@   trigger digend(x + y, len(x) + k)
+//@   props C18
+
+//@ # shortened forms: vN and vN.M are completed with ".0.0" and ".0"
+//@ lemma canon_short1(v string)
+//@   requires VPOS(v) && PA(v) == len(v)
+//@   ensures PA(v + ".0.0") == PA(v) && PB(v + ".0.0") == PA(v) + 2 && PC(v + ".0.0") == PA(v) + 4 && len(v + ".0.0") == PA(v) + 4
+//@   ensures TAILPOS(v + ".0.0", PA(v) + 4)
+//@   ensures VPOS(v + ".0.0")
+//@   uses digend_cat digend_cat2 digend_bounds
+//@   hint PA(v + ".0.0")
+//@   hint PB(v + ".0.0")
+//@   hint PC(v + ".0.0")
+//@   hint digend(".0.0", 0)
+//@   hint digend(".0.0", 1)
+//@   hint digend(".0.0", 2)
+//@   hint digend(".0.0", 3)
+//@   hint digend(".0.0", 4)
+//@   hint digend(v + ".0.0", len(v) + 1)
+//@   hint digend(v + ".0.0", len(v) + 3)
+//@   trigger VPOS(v), VPOS(v + ".0.0")
+//@   props C18
+
+//@ lemma canon_short2(v string)
+//@   requires VPOS(v) && PA(v) < len(v) && PB(v) == len(v)
+//@   ensures PA(v + ".0") == PA(v) && PB(v + ".0") == PB(v) && PC(v + ".0") == PB(v) + 2 && len(v + ".0") == PB(v) + 2
+//@   ensures TAILPOS(v + ".0", PB(v) + 2)
+//@   ensures VPOS(v + ".0")
+//@   uses digend_cat digend_cat2 digend_bounds
+//@   hint PA(v + ".0")
+//@   hint PB(v + ".0")
+//@   hint PC(v + ".0")
+//@   hint PA(v)
+//@   hint digend(".0", 0)
+//@   hint digend(".0", 1)
+//@   hint digend(".0", 2)
+//@   hint digend(v + ".0", len(v) + 1)
+//@   trigger VPOS(v), VPOS(v + ".0")
+//@   props C18
+
+//@ # facts about the canonical form of a valid version
+//@ lemma canon_full(v string)
+//@   requires VALID(v) && FULL(v) && len(v) <= 4611686018427387904
+//@   ensures len(BLD(v)) == len(v) - firstplus(v, 0) && firstplus(v, 0) <= len(v)
+//@   ensures Canonical(v) == v[:firstplus(v, 0)]
+//@   uses bld_tail firstplus_bounds
+//@   hint BLD(v)
+//@   trigger VALID(v), Canonical(v)
+//@   props C18
+
+//@ lemma canon_valid(v string)
+//@   requires VALID(v) && len(v) <= 4611686018427387904
+//@   ensures VALID(Canonical(v))
+//@   uses canon_full valid_nobuild valid_pos_a valid_pos_b canon_short1 canon_short2 pos_major pos_minor
+//@   hint VPOS(v)
+//@   hint VPOS(v + ".0.0")
+//@   hint VPOS(v + ".0")
+//@   hint VALID(v[:firstplus(v, 0)])
+//@   hint PA(v)
+//@   hint PB(v)
+//@   trigger VALID(v), Canonical(v)
+//@   props C18
+
+//@ lemma canon_shape(v string)
+//@   requires VALID(v) && len(v) <= 4611686018427387904
+//@   ensures 1 < PA(Canonical(v)) && PA(Canonical(v)) + 1 < PB(Canonical(v)) && PB(Canonical(v)) + 1 < PC(Canonical(v)) && PC(Canonical(v)) <= len(Canonical(v))
+//@   ensures Canonical(v)[PA(Canonical(v))] == '.' && Canonical(v)[PB(Canonical(v))] == '.' && alldig(Canonical(v), PB(Canonical(v)) + 1, PC(Canonical(v)))
+//@   ensures PC(Canonical(v)) == len(Canonical(v)) || Canonical(v)[PC(Canonical(v))] == '-'
+//@   ensures NOPLUS(Canonical(v), 0, len(Canonical(v)))
+//@   uses canon_full canon_valid valid_nobuild valid_pos_a canon_short1 canon_short2 pos_major pos_minor digend_bounds noplus_numbers firstplus_bounds
+//@   hint VPOS(v)
+//@   hint VPOS(Canonical(v))
+//@   hint TAILPOS(Canonical(v), PC(Canonical(v)))
+//@   hint PA(Canonical(v))
+//@   hint PB(Canonical(v))
+//@   hint PA(v)
+//@   hint PB(v)
+//@   hint VALID(v[:firstplus(v, 0)])
+//@   hint firstplus(Canonical(v), 0)
+//@   trigger VALID(v), Canonical(v)
 //@   props C18
